@@ -437,6 +437,13 @@ all_empty_md = SpecFun('all_empty_md', [], SeqSeqMdS, z3.BoolSort(),
                        plus=lambda a, b: z3.And(a, b))
 
 
+def sel(a, k):
+    """Select(a, k) with a syntactic read-over-write step (Store(a', k, v)[k] -> v)"""
+    if z3.is_app_of(a, z3.Z3_OP_STORE) and a.arg(1).eq(k):
+        return a.arg(2)
+    return z3.Select(a, k)
+
+
 _rev = {}
 
 
@@ -460,7 +467,7 @@ def vals_of(arr_sort):
         ks, vs = arr_sort.domain(), arr_sort.range()
         _vals_of[key] = SpecFun('vals_of_%d' % len(_vals_of), [arr_sort], z3.SeqSort(ks), z3.SeqSort(vs),
                                 zero=lambda a: z3.Empty(z3.SeqSort(vs)),
-                                one=lambda a, k: z3.Unit(z3.Select(a, k)),
+                                one=lambda a, k: z3.Unit(sel(a, k)),
                                 plus=lambda x, y: z3.Concat(x, y), store_frame=True)
     return _vals_of[key]
 
@@ -506,7 +513,7 @@ def _collect_concats(formulas, seen, out):
 EXTRA_LEMMAS = []      # callables(formulas) -> list of lemma instances (each lemma is proved by induction elsewhere)
 
 
-def instantiate_axioms(formulas, rounds=5):
+def instantiate_axioms(formulas, rounds=8):
     if EXTRA_LEMMAS and not getattr(instantiate_axioms, '_in_lemma', False):
         extra = []
         for fn in EXTRA_LEMMAS:
@@ -520,7 +527,7 @@ def instantiate_axioms(formulas, rounds=5):
     return _instantiate_axioms(formulas, rounds)
 
 
-def _instantiate_axioms(formulas, rounds=5):
+def _instantiate_axioms(formulas, rounds=8):
     """Mechanical unfolding of the SpecFun axioms on the concat structure of the
     argument terms occurring in `formulas` (and in the unfolded axioms).  In addition every
     homomorphism is applied to every concatenation term of its argument sort that occurs
@@ -537,7 +544,7 @@ def _instantiate_axioms(formulas, rounds=5):
         apps = []
         for f in work:
             _walk(f, seen, apps)
-        if rnd <= 3:
+        if rnd <= 6:
             # seeds of the eager application: sequences that are one side of an equation
             _collect_concats(work, cseen, concats)
         for sf, app in apps:
